@@ -163,6 +163,11 @@ mudlib_logon (object_t * ob)
 void init_console_user(int reconnect) {
 
   object_t* ob;
+  /* new_interactive() and mudlib_connect() set command_giver for connect()
+   * and logon(); put it back on the way out. At start-up nothing else would
+   * reset it before the console user may be destructed and freed. */
+  object_t *save_command_giver = command_giver;
+
   new_interactive(STDIN_FILENO);
   master_ob->interactive->connection_type = CONSOLE_USER;
   master_ob->interactive->addr.sin_addr.s_addr = htonl(INADDR_LOOPBACK);
@@ -172,6 +177,7 @@ void init_console_user(int reconnect) {
     {
       if (master_ob->interactive)
         remove_interactive (master_ob, 0);
+      command_giver = save_command_giver;
       return;
     }
 #ifdef HAVE_TERMIOS_H
@@ -209,6 +215,7 @@ void init_console_user(int reconnect) {
       debug_message("Console user re-connected.\n");
     }
   mudlib_logon(ob);
+  command_giver = save_command_giver;
 }
 
 /** @brief The main backend loop.
